@@ -13,7 +13,9 @@ import (
 	"bufio"
 	"encoding/json"
 	"fmt"
+	"os"
 	"path/filepath"
+	"strings"
 
 	"github.com/johnkerl/miller/v6/pkg/cli"
 	"github.com/johnkerl/miller/v6/pkg/mlrval"
@@ -30,6 +32,8 @@ type lruRequest struct {
 	Mode string            `json:"mode"`
 	Fmt  string            `json:"fmt"`
 	Ops  []json.RawMessage `json:"ops"`
+	// writer options (all optional): headerless, barred, right, nojlistwrap, nojvstack, mdaligned, quoteall, crlf
+	Opts map[string]bool `json:"opts"`
 }
 
 func cmdLruOps(args []string, in *bufio.Scanner, out *bufio.Writer) {
@@ -39,20 +43,63 @@ func cmdLruOps(args []string, in *bufio.Scanner, out *bufio.Writer) {
 			fmt.Fprintf(out, "{\"ok\": false, \"errors\": [%q]}\n", err.Error())
 			continue
 		}
-		errs := runLruOps(&req)
-		resp, _ := json.Marshal(map[string]interface{}{"ok": len(errs) == 0, "errors": errs})
+		errs, openMax, openEnd := runLruOps(&req)
+		resp, _ := json.Marshal(map[string]interface{}{"ok": len(errs) == 0, "errors": errs, "open_max": openMax, "open_end": openEnd})
 		out.Write(resp)
 		out.WriteString("\n")
 		out.Flush()
 	}
 }
 
-func runLruOps(req *lruRequest) []string {
+// countOpenFiles: number of descriptors of this process that refer to files under dir (/proc/self/fd links); -1 if unreadable.
+// Only the request's own scratch directory is counted, so descriptors of earlier requests (pipes still closing), of the
+// runtime or of the driver itself do not matter.
+func countOpenFiles(dir string) int {
+	f, err := os.Open("/proc/self/fd")
+	if err != nil {
+		return -1
+	}
+	defer f.Close()
+	names, err := f.Readdirnames(-1)
+	if err != nil {
+		return -1
+	}
+	n := 0
+	prefix := filepath.Clean(dir) + "/"
+	for _, name := range names {
+		target, err := os.Readlink("/proc/self/fd/" + name)
+		if err == nil && strings.HasPrefix(target, prefix) {
+			n++
+		}
+	}
+	return n
+}
+
+// returns the errors, and the number of files the manager holds open: the maximum seen after any op and the number
+// just before Close() (both relative to the count before the manager was created)
+func runLruOps(req *lruRequest) ([]string, int, int) {
 	errs := []string{}
+	base := 0
+	openMax := 0
 	wopts := cli.DefaultWriterOptions()
 	wopts.OutputFileFormat = req.Fmt
 	if err := cli.FinalizeWriterOptions(&wopts); err != nil {
-		return []string{err.Error()}
+		return []string{err.Error()}, 0, 0
+	}
+	if req.Opts != nil {
+		if req.Opts["crlf"] {
+			wopts.ORS = "\r\n"
+		}
+		wopts.HeaderlessOutput = req.Opts["headerless"]
+		wopts.BarredPprintOutput = req.Opts["barred"]
+		wopts.RightAlignedPPRINTOutput = req.Opts["right"]
+		wopts.RightAlignedXTABOutput = req.Opts["right"]
+		wopts.MarkdownAlignedOutput = req.Opts["mdaligned"]
+		wopts.CSVQuoteAll = req.Opts["quoteall"]
+		if req.Fmt == "json" {
+			wopts.WrapJSONOutputInOuterList = !req.Opts["nojlistwrap"]
+			wopts.JSONOutputMultiline = !req.Opts["nojvstack"]
+		}
 	}
 	wopts.FlushOnEveryRecord = false
 
@@ -65,7 +112,7 @@ func runLruOps(req *lruRequest) []string {
 	case "pipe":
 		mgr = output.NewPipeWriteHandlerManager(&wopts)
 	default:
-		return []string{"bad mode"}
+		return []string{"bad mode"}, 0, 0
 	}
 
 	context := types.NewContext()
@@ -106,9 +153,13 @@ func runLruOps(req *lruRequest) []string {
 				break
 			}
 		}
+		if n := countOpenFiles(req.Dir) - base; n > openMax {
+			openMax = n
+		}
 	}
+	openEnd := countOpenFiles(req.Dir) - base
 	for _, err := range mgr.Close() {
 		errs = append(errs, "close: "+err.Error())
 	}
-	return errs
+	return errs, openMax, openEnd
 }
